@@ -152,12 +152,12 @@ func genC20(rng *rand.Rand, tier string) *sim.Plan {
 }
 
 type c20truth struct {
-	pktRecv, pktSent     map[byte]uint64
-	byteRecv, byteSent   map[byte]uint64
-	msgRecv, msgSent     [3]uint64
-	dropped              [3]uint64
-	totalPR, totalPS     uint64
-	totalBR, totalBS     uint64
+	pktRecv, pktSent   map[byte]uint64
+	byteRecv, byteSent map[byte]uint64
+	msgRecv, msgSent   [3]uint64
+	dropped            [3]uint64
+	totalPR, totalPS   uint64
+	totalBR, totalBS   uint64
 }
 
 func newTruth() *c20truth {
